@@ -5,6 +5,8 @@
 //! (the property statement fails on that input). The verdict class / decoded structure of every
 //! case is also printed for the Lean model to reproduce.
 mod alloc;
+mod compile;
+mod extra;
 mod mutate;
 mod objects;
 mod sweeps;
@@ -239,6 +241,10 @@ fn main() {
         sweeps2::irb_child(&args[2], args[3].parse().expect("start index"));
         return;
     }
+    if args.len() == 4 && args[1] == "--irc-child" {
+        compile::irc_child(&args[2], args[3].parse().expect("start index"));
+        return;
+    }
     let ctx = Ctx::from_args("C16");
     let mut run = Run {
         ctx,
@@ -248,6 +254,14 @@ fn main() {
         peaks: BTreeMap::new(),
         notes: BTreeMap::new(),
     };
+    // development aid: `H_C16_ONLY=irc` runs the compile sweep alone (never set by bin/check)
+    if std::env::var("H_C16_ONLY").as_deref() == Ok("irc") {
+        compile::run_compile(&mut run);
+        extra::run_vkdeg(&mut run);
+        extra::run_iroff(&mut run);
+        run.ctx.finish();
+        return;
+    }
     let objs = objects::Objects::build(&mut run);
     sweeps::run_points(&mut run, &objs);
     sweeps::run_arch(&mut run, &objs);
@@ -255,6 +269,10 @@ fn main() {
     sweeps2::run_proofs(&mut run, &objs);
     sweeps2::run_vparams(&mut run, &objs);
     sweeps2::run_ir(&mut run);
+    compile::run_compile(&mut run);
+    extra::run_vkdeg(&mut run);
+    extra::run_iroff(&mut run);
+    extra::run_length_fields(&mut run, &objs);
     sweeps2::run_prover_local(&mut run, &objs);
     let peaks = run
         .peaks
@@ -263,6 +281,7 @@ fn main() {
         .collect::<serde_json::Map<_, _>>();
     run.ctx.set_extra("peak_allocation_per_decoder", serde_json::Value::Object(peaks));
     let notes = run.notes.iter().map(|(k, v)| (k.clone(), json!(v))).collect::<serde_json::Map<_, _>>();
+    run.ctx.set_extra("length_fields_swept", json!(extra::LENGTH_FIELDS));
     run.ctx.set_extra("reported_only_samples", serde_json::Value::Object(notes));
     run.ctx.finish();
 }
